@@ -177,7 +177,7 @@ thread_local! { static TRACKED: RefCell<Vec<RecExpr<A>>> = RefCell::new(Vec::new
 struct IterFp { nodes: usize, fp: Vec<usize>, stop: &'static str }
 impl IterationData<A, ConstFold> for IterFp {
     fn make<E: Clone>(runner: &Runner<A, ConstFold, Self, E>) -> Self {
-        let fp = TRACKED.with(|t| fingerprint(&runner.egraph, &t.borrow()));
+        let fp = if runner.egraph.total_number_of_nodes() > 1200 { vec![runner.egraph.total_number_of_nodes()] } else { TRACKED.with(|t| fingerprint(&runner.egraph, &t.borrow())) };
         IterFp { nodes: runner.egraph.total_number_of_nodes(), fp, stop: runner.stop_reason.as_ref().map(reason_name).unwrap_or("none") }
     }
 }
@@ -213,16 +213,19 @@ fn main() {
     install_hook();
     let (mut nev, mut panics) = (0usize, 0usize);
     let mut findings: Vec<Value> = Vec::new();
+    let t_start = std::time::Instant::now();
     for run in 0..runs {
+        if std::env::var("VERIF_RW_DEBUG").is_ok() && run % 50 == 0 { eprintln!("run {run} at {:.1}s", t_start.elapsed().as_secs_f64()); }
         let kind = ["manual", "runner", "eqsat"][run % 3];
         let start_txt = gen_term(&mut rng, if run % 2 == 0 { 3 } else { 4 });
         let k = rng.gen_range(4..=12);
         let rules: Vec<RuleJ> = rf.rules.choose_multiple(&mut rng, k).cloned().collect();
         let rule_names: Vec<String> = rules.iter().map(|r| r.name.clone()).collect();
         let iter_limit = rng.gen_range(0..=3usize);
-        let node_limit = *[30usize, 80, 200, 400].choose(&mut rng).unwrap();
+        let node_limit = *[20usize, 40, 60, 100].choose(&mut rng).unwrap();
         let hook_fail_at: Option<usize> = if rng.gen_bool(0.2) { Some(rng.gen_range(0..3)) } else { None };
         let extraction_subst = rng.gen_bool(0.5);
+        if std::env::var("VERIF_RW_DEBUG").is_ok() && run >= 999999 { eprintln!("run {run}: {kind} {start_txt} {rule_names:?} iter_limit={iter_limit} node_limit={node_limit} ext={extraction_subst}"); }
         let st = start_txt.clone();
         let rules2 = rules.clone();
         let res = std::thread::spawn(move || guard(move || {
@@ -242,20 +245,27 @@ fn main() {
                     let ret = apply_rewrites(&mut eg, &rws);
                     let after = fingerprint(&eg, &tracked);
                     evs.push(json!({"ev":"rewrite","ret":ret,"fp_changed":before != after,"nodes":eg.total_number_of_nodes()}));
-                    if eg.total_number_of_nodes() > 150 { break; }
+                    if eg.total_number_of_nodes() > 60 { break; }
                 }
                 dump_events(&eg, &start, &root, &mut evs);
             } else if kind == "runner" {
                 let mut runner: Runner<A, ConstFold, IterFp, String> = Runner::new(ConstFold).with_egraph(eg).with_expr(&start)
                     .with_iter_limit(iter_limit).with_node_limit(node_limit);
-                let calls = Rc::new(RefCell::new(0usize));
-                let calls2 = calls.clone();
-                runner = runner.with_hook(move |_r| { let mut c = calls2.borrow_mut(); *c += 1; if Some(*c - 1) == hook_fail_at { Err("hook".to_string()) } else { Ok(()) } });
+                // the hook fails at the chosen iteration, and also when the e-graph explodes
+                // (a run-away saturation would otherwise make the recorder itself unbounded)
+                let hook_log: Rc<RefCell<Vec<bool>>> = Rc::new(RefCell::new(Vec::new()));
+                let hook_log2 = hook_log.clone();
+                runner = runner.with_hook(move |r| {
+                    let mut l = hook_log2.borrow_mut();
+                    let ok = Some(l.len()) != hook_fail_at && r.egraph.total_number_of_nodes() <= 80;
+                    l.push(ok);
+                    if ok { Ok(()) } else { Err("hook".to_string()) }
+                });
                 let mut prev = fingerprint(&runner.egraph, &tracked);
                 let report = runner.run(&rws);
                 let mut hook_failed = false;
                 for (i, it) in runner.iterations.iter().enumerate() {
-                    let hook_ok = Some(i) != hook_fail_at;
+                    let hook_ok = hook_log.borrow().get(i).copied().unwrap_or(true);
                     if !hook_ok { hook_failed = true; }
                     evs.push(json!({"ev":"iter","nodes":it.data.nodes,"num_nodes_field":it.num_nodes,"fp_changed":it.data.fp != prev,"hook_ok":hook_ok,"stop":it.data.stop}));
                     prev = it.data.fp.clone();
@@ -275,22 +285,24 @@ fn main() {
                 if runner.egraph.total_number_of_nodes() <= 200 { dump_events(&runner.egraph, &start, &root, &mut evs); }
             } else {
                 let root = eg.add_expr(start.clone());
-                let log: Rc<RefCell<Vec<(usize, Vec<usize>)>>> = Rc::new(RefCell::new(Vec::new()));
+                let log: Rc<RefCell<Vec<(usize, Vec<usize>, bool)>>> = Rc::new(RefCell::new(Vec::new()));
                 let log2 = log.clone();
                 let tr = tracked.clone();
                 let first = fingerprint(&eg, &tracked);
                 let report = run_eqsat(&mut eg, rws, iter_limit, 1000, move |g: &mut EGraph<A, ConstFold>| {
                     let mut l = log2.borrow_mut();
-                    l.push((g.total_number_of_nodes(), fingerprint(g, &tr)));
-                    if Some(l.len() - 1) == hook_fail_at { Err("hook".to_string()) } else { Ok(()) }
+                    let big = g.total_number_of_nodes() > 80;
+                    let ok = Some(l.len()) != hook_fail_at && !big;
+                    l.push((g.total_number_of_nodes(), if big { vec![g.total_number_of_nodes()] } else { fingerprint(g, &tr) }, ok));
+                    if l.last().unwrap().2 { Ok(()) } else { Err("hook".to_string()) }
                 });
                 let reason = reason_name(&report.stop_reason);
                 let l = log.borrow();
                 let mut prev = first;
                 let mut hook_failed = false;
-                for (i, (n, fp)) in l.iter().enumerate() {
+                for (i, (n, fp, ok)) in l.iter().enumerate() {
                     let last = i + 1 == l.len();
-                    let hook_ok = Some(i) != hook_fail_at;
+                    let hook_ok = *ok;
                     if !hook_ok { hook_failed = true; }
                     evs.push(json!({"ev":"iter","nodes":n,"num_nodes_field":n,"fp_changed":fp != &prev,"hook_ok":hook_ok,"stop": if last { reason } else { "none" }}));
                     prev = fp.clone();
